@@ -56,7 +56,8 @@ func codeCheck(t, d, off int, got []byte) (int, bool) {
 // Tunnel is one end-to-end tunnel of the workload.
 type Tunnel struct {
 	ID      int
-	Kind    string // "tcp", "domain", "forward"
+	Kind    string // "tcp", "domain", "forward", "udp", "icmp"
+	ICMPVia string // "socks" or "ping-api" (icmp only)
 	Ingress int
 	Exit    int
 	Addr    string // destination as dialled by the exit
@@ -141,6 +142,9 @@ func (ts *TunnelSet) onFrame(ev *FrameEvent) {
 			}
 		}
 	}
+	if ev.Type == protocol.FrameICMPOpen {
+		ts.onICMPOpen(ev)
+	}
 	if ev.Type == protocol.FrameStreamOpen {
 		so, err := protocol.DecodeStreamOpen(ev.Payload)
 		if err != nil {
@@ -188,6 +192,10 @@ func (ts *TunnelSet) Add(t *Tunnel) {
 	ex := ts.m.Nodes[t.Exit]
 	if t.Kind == "udp" {
 		ts.addUDP(t)
+		return
+	}
+	if t.Kind == "icmp" {
+		ts.addICMP(t)
 		return
 	}
 	switch t.Kind {
@@ -328,6 +336,10 @@ func (ts *TunnelSet) Start(t *Tunnel) {
 		ts.startUDP(t)
 		return
 	}
+	if t.Kind == "icmp" {
+		ts.startICMP(t)
+		return
+	}
 	nd := ts.m.Nodes[t.Ingress]
 	ts.group.Go(fmt.Sprintf("client-%d", t.ID), func() {
 		simrt.SetNode(nd.Name)
@@ -434,7 +446,7 @@ func (ts *TunnelSet) Wait(limit time.Duration) bool {
 // opened tunnel delivered exactly the bytes that were sent, in both directions.
 func (ts *TunnelSet) CheckComplete() {
 	for _, t := range ts.T {
-		if t.faulted || t.Kind == "udp" || t.NoServer {
+		if t.faulted || t.Kind == "udp" || t.Kind == "icmp" || t.NoServer {
 			continue
 		}
 		if !t.Opened {
